@@ -57,20 +57,20 @@ def _search(pid, rule, quick_bounds, thorough_bounds, quick_random, thorough_ran
 ENUM = "graphs are enumerated as insertion sequences (every multigraph with self-loops and parallel edges, every insertion order) within the node/edge bounds given in counters, x every root (x every target != root) x every subset of rejected edge ids plus sampled direction-dependent predicates; seeded random graphs of 3..40 nodes from six families (sparse, dense, dag, cycle-with-chords, disconnected, star-with-parallel) with sampled roots/targets/filters. distinct = distinct (flavour, graph, priorities, root/target/filter configuration) with at least one edge."
 
 PROPS.update({
-    "C04": _search("C04", "bfs().target(t).search_path()/search() against model BFS distances on the accepted sub-graph: presence iff reachable, path starts at root, ends at target, chained existing accepted edges, length = model distance, search() agrees, Path accessors agree with each other. " + ENUM, "3:4", "3:5,4:4", 400, 6000, ["unreachable_targets", "filter_disconnects_target", "paths_len_ge2"]),
-    "C05": _search("C05", "dfs().target(t).search_path()/search(): presence iff reachable in the accepted sub-graph, valid chained path of existing accepted edges, no node twice, search() agrees. " + ENUM, "3:4", "3:5,4:4", 400, 6000, ["unreachable_targets", "filter_disconnects_target", "paths_len_ge2"]),
-    "C06": _search("C06", "pfs min/max: (i) expansion order read off the for_each/filter call log (blocks of equal source; at the start of a block no discovered, unexpanded node with edges has a strictly better value), with and without target; (ii) target search validity as C04 minus minimality; (iii) comparison operators of nodes over a 3x3 (key,value) grid. Node values from {0,1,2}^n, all assignments for n<=3. " + ENUM, "3:3", "3:4,4:3", 200, 3000, ["unreachable_targets", "pfs_traversals_with_ge3_expansions", "comparison_pairs"]),
-    "C07": _search("C07", "for_each without target on bfs/dfs/pfs-min/pfs-max/preorder/postorder: multiset of closure calls == multiset of edges leaving reachable nodes (undirected: once per endpoint, self-loop twice), true endpoints and value; with filters: no rejected edge in any path/ordering/cycle/edge list, results only for what is reachable through accepted edges, closure only ever sees true edges. " + ENUM, "3:3", "3:4,4:3", 200, 3000, ["foreach_logs_ge3_calls", "filtered_searches"]),
-    "C08": _search("C08", "differential on two live instances: every search configuration {bfs,dfs,pfs-min,pfs-max,pre,post} x {search,search_path,search_cycle,search_nodes,search_edges} x root x target x filter with transpose() on G must equal, result and closure-call sequence, the plain configuration on the list-wise reversed instance G^R; transposed reports must be stored edges u->v shown as (v,u,e); non-transposed traversals only report stored out-edges. Directed flavours. " + ENUM, "3:3", "3:4,4:3", 200, 3000, ["differential_pairs_with_result"]),
-    "C09": _search("C09", "search_cycle for bfs/dfs/pfs: presence iff the root reaches itself through >=1 accepted edges (undirected: accepted half-edges), result starts/ends at root, chained existing accepted edges; directed: no edge / intermediate node twice, root not inside, bfs result of minimum length. " + ENUM, "3:4", "3:5,4:4", 400, 6000, ["acyclic_roots", "selfloop_cycles", "cycles_len_ge3"]),
-    "C10": _search("C10", "preorder()/postorder() (directed) and order().pre()/.post() (undirected): search_nodes is a permutation of the model's reachable set with the root first/last and is producible by some DFS (preorder: exact stack simulation; postorder: exact back-tracking decision with a step budget, necessary conditions only beyond, counted separately); search_edges = one existing accepted edge per non-root node in the same order. " + ENUM, "3:4", "3:5,4:4", 400, 6000, ["orders_ge3_nodes", "postorder_exact_decisions"]),
+    "C04": _search("C04", "bfs().target(t).search_path()/search() against model BFS distances on the accepted sub-graph: presence iff reachable, path starts at root, ends at target, chained existing accepted edges, length = model distance, search() agrees, Path accessors agree with each other. " + ENUM, "3:4,4:3", "3:5,4:4", 3000, 30000, ["unreachable_targets", "filter_disconnects_target", "paths_len_ge2"]),
+    "C05": _search("C05", "dfs().target(t).search_path()/search(): presence iff reachable in the accepted sub-graph, valid chained path of existing accepted edges, no node twice, search() agrees. " + ENUM, "3:4,4:3", "3:5,4:4", 3000, 30000, ["unreachable_targets", "filter_disconnects_target", "paths_len_ge2"]),
+    "C06": _search("C06", "pfs min/max: (i) expansion order read off the for_each/filter call log (blocks of equal source; at the start of a block no discovered, unexpanded node with edges has a strictly better value), with and without target; (ii) target search validity as C04 minus minimality; (iii) comparison operators of nodes over a 3x3 (key,value) grid. Node values from {0,1,2}^n, all assignments for n<=3. " + ENUM, "3:3", "3:4,4:3", 1500, 15000, ["unreachable_targets", "pfs_traversals_with_ge3_expansions", "comparison_pairs"]),
+    "C07": _search("C07", "for_each without target on bfs/dfs/pfs-min/pfs-max/preorder/postorder: multiset of closure calls == multiset of edges leaving reachable nodes (undirected: once per endpoint, self-loop twice), true endpoints and value; with filters: no rejected edge in any path/ordering/cycle/edge list, results only for what is reachable through accepted edges, closure only ever sees true edges. " + ENUM, "3:3", "3:4,4:3", 1500, 15000, ["foreach_logs_ge3_calls", "filtered_searches"]),
+    "C08": _search("C08", "differential on two live instances: every search configuration {bfs,dfs,pfs-min,pfs-max,pre,post} x {search,search_path,search_cycle,search_nodes,search_edges} x root x target x filter with transpose() on G must equal, result and closure-call sequence, the plain configuration on the list-wise reversed instance G^R; transposed reports must be stored edges u->v shown as (v,u,e); non-transposed traversals only report stored out-edges. Directed flavours. " + ENUM, "3:3", "3:4,4:3", 1500, 15000, ["differential_pairs_with_result"]),
+    "C09": _search("C09", "search_cycle for bfs/dfs/pfs: presence iff the root reaches itself through >=1 accepted edges (undirected: accepted half-edges), result starts/ends at root, chained existing accepted edges; directed: no edge / intermediate node twice, root not inside, bfs result of minimum length. " + ENUM, "3:4,4:3", "3:5,4:4", 3000, 30000, ["acyclic_roots", "selfloop_cycles", "cycles_len_ge3"]),
+    "C10": _search("C10", "preorder()/postorder() (directed) and order().pre()/.post() (undirected): search_nodes is a permutation of the model's reachable set with the root first/last and is producible by some DFS (preorder: exact stack simulation; postorder: exact back-tracking decision with a step budget, necessary conditions only beyond, counted separately); search_edges = one existing accepted edge per non-root node in the same order. " + ENUM, "3:4,4:3", "3:5,4:4", 3000, 30000, ["orders_ge3_nodes", "postorder_exact_decisions"]),
 })
 
 PROPS["C11"] = {
     "id": "C11", "cmd": "scc", "level": "exploration",
     "rule": "every directed graph (self-loops allowed) on 1..N nodes, N=3 quick / 4 thorough, as an edge set with varying insertion order, plus a fixed family of non-simple components (figure-8, nested cycles, cycle-with-chord, DAG-of-cycles, parallel edges) and seeded random graphs up to 30 nodes; each graph is put into several container instances (own hash iteration order, shuffled insertion order) and scc() is compared with Tarjan on the observed graph: partition of the members, same component iff mutually reachable. distinct = distinct (flavour, graph, container iteration order).",
     "shards": {"quick": 8, "thorough": 16},
-    "args": {"quick": ["--max-n", "3", "--instances", "4", "--random", "200"], "thorough": ["--max-n", "4", "--instances", "4", "--random", "4000"]},
+    "args": {"quick": ["--max-n", "4", "--instances", "3", "--random", "3000"], "thorough": ["--max-n", "4", "--instances", "8", "--random", "60000"]},
     "exhaustive": {"quick": True, "thorough": True},
     "require": {"any": ["enumerations_completed", "graphs_with_non_simple_component", "graphs_with_several_components_one_nontrivial", "fixed_family_graphs", "random_graphs", "distinct_container_iteration_orders"]},
     "assumptions": ["all neighbours of members are members (premise of the property)", "the hash order of a container instance is not reproducible; replay re-runs 64 instances"],
@@ -81,7 +81,7 @@ PROPS["C12"] = {
     "id": "C12", "cmd": "serde_rt", "level": "exploration",
     "rule": "every multigraph (as insertion sequence, self-loops and parallel edges) within the node/edge bound and seeded random graphs up to 40 nodes, in each of the four containers, several container instances (hash orders) each, is serialised and deserialised with JSON and CBOR; the result is compared with the original through the observation function (keys, node values, per-node ordered out-list for directed / multiset of incident edges for undirected, degrees, C01/C02 walkers) and a second round trip must be a fixed point; plus Graph<String, Option<i8>, (u8, String)> instances with hostile key strings. distinct = distinct (flavour, format, graph, instance).",
     "shards": {"quick": 8, "thorough": 16},
-    "args": {"quick": ["--max-n", "3", "--max-e", "3", "--random", "200", "--typed", "400"], "thorough": ["--max-n", "3", "--max-e", "4", "--random", "6000", "--typed", "20000"]},
+    "args": {"quick": ["--max-n", "3", "--max-e", "3", "--random", "1500", "--typed", "2000"], "thorough": ["--max-n", "3", "--max-e", "4", "--random", "30000", "--typed", "100000"]},
     "exhaustive": {"quick": True, "thorough": True},
     "require": {"any": ["enumerations_completed", "graphs_with_selfloop", "graphs_with_parallel_edges", "random_graphs", "typed_roundtrips", "ungraph.json", "sync_ungraph.cbor", "digraph.cbor", "sync_digraph.json"]},
     "assumptions": ["node values and edge values serialise faithfully (serde_json / serde_cbor and the payload impls are trusted)"],
@@ -91,7 +91,7 @@ PROPS["C13"] = {
     "id": "C13", "cmd": "serde_fuzz", "level": "exploration",
     "rule": "documents = hand-written synthetic documents, 16 kinds of structural mutation (drop, duplicate, swap, retype to null/string/negative/2^32/float/array/object/bool, nest, retarget to an undeclared key, arity +1/-1, increment) at every position of every valid seed document (all multigraphs on <=2 nodes/<=2 edges plus richer seeds), double mutations on the small seeds, truncation at every byte, seeded random byte/token mutations; JSON and CBOR; four containers. Oracle: no panic, no hang (CPU-time watchdog); Ok(graph) must pass the invariant walk, contain only nodes and edge copies that a lenient parse of the same bytes declares, and must not have been accepted if an edge names an undeclared key. distinct = distinct documents per flavour.",
     "shards": {"quick": 8, "thorough": 16},
-    "args": {"quick": ["--random", "400000"], "thorough": ["--random", "12000000"]},
+    "args": {"quick": ["--random", "3000000"], "thorough": ["--random", "60000000"]},
     "exhaustive": {"quick": False, "thorough": False},
     "require": {"any": ["enumerations_completed", "documents_accepted", "documents_rejected", "accepted_with_edges", "structural_mutations", "truncations", "random_mutations", "synthetic_documents"]},
     "assumptions": ["'declared by the document' is computed by serde_json::Value / serde_cbor::Value parses of the same bytes"],
@@ -102,7 +102,7 @@ PROPS["C18"] = {
     "id": "C18", "cmd": "container", "level": "exploration",
     "rule": "histories over the alphabet {insert of either of two distinct node objects per key, remove, connect / disconnect / isolate on members and non-members, connect / isolate through handles handed out by get / index / to_vec / iter}: every sequence of the stated depth over the stated key count is enumerated, plus seeded random histories of 300 calls on 2..6 keys; after every call len/is_empty/contains/get/index/to_vec/iter/roots/leaves/orphans are compared with a key->node-object map model (identity by payload instance), changes made through handed-out nodes must be visible through the original handles, and the DOT exports of the final graph are parsed line by line against the members, the edges obtained by iterating them and the attributes returned by 27 callback combinations. distinct = distinct (flavour, history).",
     "shards": {"quick": 8, "thorough": 16},
-    "args": {"quick": ["--keys", "2", "--depth", "3", "--random", "2000"], "thorough": ["--keys", "2", "--depth", "4", "--random", "60000"]},
+    "args": {"quick": ["--keys", "2", "--depth", "3", "--random", "20000"], "thorough": ["--keys", "2", "--depth", "4", "--random", "400000"]},
     "exhaustive": {"quick": True, "thorough": True},
     "require": {"any": ["enumerations_completed", "insert_of_other_object_on_present_key", "remove_of_absent_key", "edge_ops_touching_non_members", "changes_through_handed_out_nodes", "dot_exports_with_edges", "dot_attr_exports", "random_histories"]},
     "assumptions": ["connected node objects have distinct keys (premise of the node properties): only one object per key ever takes part in edge operations", "Display of u32 keys contains no whitespace or '->', so DOT text can be parsed by line"],
@@ -113,7 +113,7 @@ PROPS["C19"] = {
     "id": "C19", "cmd": "leak", "level": "exploration",
     "rule": "scenarios = (multigraph on <=N nodes / <=E connects incl. self-loops, cycles, parallel edges) x 12 sets of extra handles (container, yielded edge, bfs path, dfs cycle, preorder nodes, postorder edges, clone, found node) and optional neighbour lookups / refused try_connects from both ends before the drops x drop orders (all permutations up to 4 handles, 14 sampled beyond: originals first, last, shuffled); random scenarios on 2..8 nodes add disconnect/isolate before the drops. After every single drop: no payload of a node that a surviving handle mentions has been released, every surviving handle still reads key/value of its nodes (own payload instance); after the last drop: live count 0 and every payload instance released exactly once. The same sub-command is re-run under valgrind memcheck (leak check, definite+indirect) and under Miri (leak report at exit, UB) as independent oracles. distinct = distinct (flavour, graph, handle set, drop order).",
     "shards": {"quick": 8, "thorough": 16},
-    "args": {"quick": ["--max-n", "3", "--max-e", "2", "--random", "4000"], "thorough": ["--max-n", "3", "--max-e", "3", "--random", "200000"]},
+    "args": {"quick": ["--max-n", "3", "--max-e", "2", "--random", "40000"], "thorough": ["--max-n", "3", "--max-e", "3", "--random", "1000000"]},
     "valgrind": {"quick": {"procs": 8, "args": ["--max-n", "2", "--max-e", "2", "--random", "400"], "timeout": 600},
                  "thorough": {"procs": 16, "args": ["--max-n", "3", "--max-e", "2", "--random", "4000"], "timeout": 1800}},
     "miri": {"quick": {"procs": 16, "nshards": 640, "args": ["--max-n", "2", "--max-e", "1", "--random", "0"], "timeout": 900},
@@ -128,7 +128,7 @@ PROPS["C20"] = {
     "id": "C20", "cmd": "mutate", "level": "exploration",
     "rule": "cases = (multigraph on 2..3 nodes within the edge bound) x loop kind (iter_out/iter, iter_in, `for e in &node`, and bfs/dfs/pfs-min/pfs-max/preorder/postorder x for_each/filter x plain/transposed x with/without target x search_cycle: 3+39 kinds directed, 2+21 undirected) x root x trigger step x script; scripts = every single operation from {connect, try_connect, disconnect, isolate} x operands {iterated/source node, yielded peer, root, third node}^2, queries, 12 kinds of nested search, container insert/remove/get (113 scripts), fired once or at every following step; plus seeded random cases with 1-3 op scripts on up to 6 nodes. The harness applies every mutation it performs to a model, so each yielded edge is tested for membership at the moment of the yield; also: no panic / re-entrant lock (hook), logical step bound after the last edge-adding op, earlier handles unchanged, final state == model and passes the C01/C02 walkers. distinct = distinct cases in which the loop reached the trigger step (script actually ran inside the loop).",
     "shards": {"quick": 16, "thorough": 16},
-    "args": {"quick": ["--max-n", "3", "--max-e", "1", "--random", "40000"], "thorough": ["--max-n", "3", "--max-e", "2", "--random", "2000000"]},
+    "args": {"quick": ["--max-n", "3", "--max-e", "1", "--random", "400000"], "thorough": ["--max-n", "3", "--max-e", "2", "--random", "8000000"]},
     "exhaustive": {"quick": True, "thorough": True},
     "require": {"any": ["enumerations_completed", "cases_where_script_fired", "random_cases", "yields_observed"]},
     "assumptions": ["the harness keeps a strong handle to every node (container remove never frees a connected node)", "mutations performed inside loops obey the C03 contract (their return values drive the model)"],
@@ -139,7 +139,7 @@ PROPS["C15"] = {
     "id": "C15", "cmd": "dropin", "level": "exploration",
     "rule": "programs over the API common to both flavours (connect/try_connect/disconnect/isolate with 7 handle provenances, degree/predicate/lookup queries, the three edge iterators, every search/ordering configuration with for_each logs and reject-set filters, container insert/remove/get/index/len/to_vec/iter/roots/leaves/orphans, scc, JSON/CBOR text, DOT, edge and node comparison operators) are generated from the seed (50..300 calls, 2..6 nodes) and executed on digraph vs sync_digraph and ungraph vs sync_ungraph; transcripts (one line per call, keys and values only; hash-order dependent output canonicalised; scc compared only when it equals the model partition) must be equal. In addition every (abstract state, op) pair of the C03 enumeration for 3 nodes is run side by side with all iterators and queries afterwards. distinct = distinct programs.",
     "shards": {"quick": 16, "thorough": 16},
-    "args": {"quick": ["--programs", "4000", "--max-edges", "2"], "thorough": ["--programs", "200000", "--max-edges", "3"]},
+    "args": {"quick": ["--programs", "20000", "--max-edges", "2"], "thorough": ["--programs", "600000", "--max-edges", "3"]},
     "exhaustive": {"quick": False, "thorough": False},
     "require": {"any": ["enumerations_completed", "programs", "calls.search", "calls.serde", "calls.scc", "calls.dot", "calls.compare", "calls.container", "enumerated_state_op_pairs"]},
     "assumptions": ["sizeof() and APIs that exist in one flavour only (with_capacity, Index<&K>, to_dot_with_attr/sizeof of ungraph) are not part of the common API", "compile-time differences between the flavours (trait bounds) are outside what executions can show"],
